@@ -221,6 +221,7 @@ def join_byte_intervals(
     last_module = last_block.module if last_block is not None else None
 
     def insert_padding(size):
+        nonlocal last_block
         if size == 0:
             return
         if isinstance(last_block, gtirb.CodeBlock):
@@ -261,6 +262,8 @@ def join_byte_intervals(
                     offset=padding_block_offset, size=padding_block_size
                 )
             padding.byte_interval = destination
+            # Further padding starts behind this block, not on top of it.
+            last_block = padding
 
     symexprs = OffsetMapping()
     deltas = {}
